@@ -12,6 +12,8 @@ import (
 	"testing"
 	"testing/synctest"
 	"time"
+
+	"google.golang.org/protobuf/types/known/wrapperspb"
 )
 
 var syTopos = []string{"direct", "proxy", "demux"}
@@ -189,8 +191,11 @@ func runC01Free(t *testing.T, fi int, fc freeCfg) (epochs [][]string) {
 		close(roundCh[0])
 		var finished atomic.Int64
 		rngs := make([]*rand.Rand, fc.callers)
+		ins := make([]*wrapperspb.BytesValue, fc.callers)
+		outs := make([]*wrapperspb.BytesValue, fc.callers)
 		for g := range rngs {
 			rngs[g] = newRand(int64(900000 + 1000*fi + g))
+			ins[g], outs[g] = &wrapperspb.BytesValue{}, syUsedReply() // one request and one reply object per caller, reused
 		}
 		for e0 := 0; e0 < fc.calls; e0 += epochLen {
 			m := r.hist.mark()
@@ -200,6 +205,7 @@ func runC01Free(t *testing.T, fi int, fc freeCfg) (epochs [][]string) {
 				go func(g int) {
 					defer wg.Done()
 					rng := rngs[g]
+					in, out := ins[g], outs[g]
 					for n := e0; n < e0+epochLen && n < fc.calls; n++ {
 						if fc.barrier {
 							<-roundCh[n] // the previous round must be complete
@@ -209,7 +215,7 @@ func runC01Free(t *testing.T, fi int, fc freeCfg) (epochs [][]string) {
 							size = 1024
 						}
 						ctx, cancel := context.WithTimeout(r.ctx, 10*time.Minute) // virtual time: fires only when everything is blocked
-						r.invoke(ctx, int64(g*fc.calls+n), syBytes(rng, size))
+						r.invoke(ctx, int64(g*fc.calls+n), (g+n)%syNUnary, syBytes(rng, size), in, out)
 						cancel()
 						if fc.barrier {
 							if f := finished.Add(1); f%int64(fc.callers) == 0 {
@@ -294,7 +300,7 @@ func TestC01(t *testing.T) {
 			sizes := make([]int, cfg.k)
 			for i := range progs {
 				sizes[i] = syPickSize(rng)
-				progs[i] = []syCop{{Op: "invoke", Pay: syBytes(rng, sizes[i])}}
+				progs[i] = []syCop{{Op: "invoke", Pay: syBytes(rng, sizes[i]), M: i + nsched}}
 			}
 			steps, complete, _ := runC01Lock(t, cfg, progs, func(step int, en []syAct) int {
 				// callers first (their order fixes the ids), then every order of the rest
@@ -330,7 +336,7 @@ func TestC01(t *testing.T) {
 		for j := range progs {
 			n := 1 + rng.Intn(3)
 			for x := 0; x < n; x++ {
-				progs[j] = append(progs[j], syCop{Op: "invoke", Pay: syBytes(rng, syPickSize(rng))})
+				progs[j] = append(progs[j], syCop{Op: "invoke", Pay: syBytes(rng, syPickSize(rng)), M: rng.Intn(syNUnary)})
 				ncalls++
 			}
 		}
